@@ -188,9 +188,11 @@ TRestart ==
 \* pf: unsigned third-party transaction data was pushed to the node over P2P in this run.  The listed
 \* properties promise that such data is never applied (C03), but only for third-party material on the DA
 \* layer that it does not halt the node: a halt after it is not a verdict here (a panic always is).
+\* ... and after the node's datastore refused a write (KVFail): halting on that is not covered by any listed
+\* property either; the run then checks that an orderly stop, a restart and re-delivery bring the node to the chain
 TInject ==
-    /\ Is("Inject") /\ Adv
-    /\ pf' = (pf \/ e.via = "p2pdata")
+    /\ (Is("Inject") \/ Is("KVFail")) /\ Adv
+    /\ pf' = (pf \/ e.ev = "KVFail" \/ e.via = "p2pdata")
     /\ UNCHANGED <<run, ih, chain, top, phase, got, lastH, nextExec, fresh, maxExec, onDA, finals, cur, chunks, cleanStop, lastIncl, viol>>
 
 TNodeErr ==
@@ -217,7 +219,7 @@ TQuiesce ==
 
 TOther ==
     /\ l <= N /\ Adv
-    /\ ~(e.ev \in {"Reset", "Chain", "Phase", "Deliver", "Quiesce", "LightOffer", "Inject"})
+    /\ ~(e.ev \in {"Reset", "Chain", "Phase", "Deliver", "Quiesce", "LightOffer", "Inject", "KVFail"})
     /\ ~(e.ev \in {"DAGetIDs", "DAGet"} /\ phase = "sync")
     /\ ~(Full /\ e.ev \in {"Obs", "ExecTxs", "Crash", "Restart", "NodeErr", "Panic", "Stop", "ExecFinal"})
     /\ UNCHANGED <<pf, run, ih, chain, top, phase, got, lastH, nextExec, fresh, maxExec, onDA, finals, cur, chunks, cleanStop, lastIncl, viol>>
